@@ -840,7 +840,13 @@ mod if_alloc {
 
     #[cfg(feature = "std")]
     pub use self::if_std::*;
+
+    #[cfg(futures_intrusive_verif)]
+    include!(concat!(env!("FI_VERIF_INC"), "/semaphore_shared.rs"));
 }
 
 #[cfg(feature = "alloc")]
 pub use self::if_alloc::*;
+
+#[cfg(futures_intrusive_verif)]
+include!(concat!(env!("FI_VERIF_INC"), "/semaphore.rs"));
